@@ -13,6 +13,8 @@
 #include <gudhi/Fields/Multi_field_small_shared.h>
 #include <gudhi/Fields/Multi_field_small_operators.h>
 #include <gudhi/Persistent_cohomology/Field_Zp.h>
+#include <iostream>  // Persistent_cohomology/Multi_field.h uses std::cerr without including it
+#include <gudhi/Persistent_cohomology/Multi_field.h>
 
 using namespace Gudhi::persistence_fields;
 
